@@ -114,6 +114,9 @@ func wireRegions(b []byte) (hdr, fo, frm, mic []int) {
 	return
 }
 
+var linkSharedDP *lorawan.DataPayload
+var linkSharedPlain []byte
+
 func (c *ctx) linkCase(cs M) {
 	cfg := cs["cfg"].(M)
 	dir := cfg["dir"].(string)
@@ -124,7 +127,22 @@ func (c *ctx) linkCase(cs M) {
 	hiZero := cfg["hi"].(string) == "zero"
 	k := linkKeys{app: c.key(), enc: c.key(), fk: c.key(), sk: c.key(), conf: c.edge32(), txdr: uint8(c.rnd.Intn(256)), txch: uint8(c.rnd.Intn(256))}
 	orig := c.linkFrame(dir, ack, layout, hiZero)
+	// an application message that is sent again (next counter, other device): the caller's payload object of an earlier
+	// frame is put into this frame as it is - the library was only asked to encrypt FRAMES, the message is still the message
+	reuse := layout == "app" && linkSharedDP != nil && c.rnd.Intn(3) == 0
+	if reuse {
+		orig["frm"] = []interface{}{M{"t": "raw", "b": bs(linkSharedPlain)}}
+	}
 	phy := valToPhy(cloneM(orig).(M), false)
+	if mp, ok := phy.MACPayload.(*lorawan.MACPayload); ok && layout == "app" && len(mp.FRMPayload) == 1 {
+		if dp, ok := mp.FRMPayload[0].(*lorawan.DataPayload); ok {
+			if reuse {
+				mp.FRMPayload[0] = linkSharedDP
+			} else {
+				linkSharedDP, linkSharedPlain = dp, append([]byte{}, dp.Bytes...)
+			}
+		}
+	}
 	up := dir == "up"
 	end := M{"ev": "linkend", "cfg": cfg, "sops": cs["sops"], "rops": cs["rops"], "exp": cs["exp"], "orig": orig}
 	var wire []byte
